@@ -1312,7 +1312,9 @@ def _concat(data: list[Any]):
 
 def _pad(data: Any, pad: Any, batch_size: int):
   if hasattr(data, '__array__'):
-    return np.pad(data, (0, batch_size - data.shape[0]), constant_values=pad)
+    # Only the batch dimension is padded.
+    pad_width = [(0, batch_size - data.shape[0])] + [(0, 0)] * (data.ndim - 1)
+    return np.pad(data, pad_width, constant_values=pad)
   elif isinstance(data, list):
     return list(mit.padded(data, pad, batch_size))
   elif isinstance(data, tuple):
